@@ -17,6 +17,11 @@ def run(run, model):
     run.do(inv.self_rule, model)
     run.do(inv.meta_reapply, model, "C03.meta-reapply", None)
     run.do(marker.body_rules, model, None, "C03.body-held")
+    from . import fwd, c04
+    marker.report_rule(run, model, "C11.release-on-all-exits", ("inv[init]", "inv[sync]", "inv[async]"), "the instance marker is given back on every exit (a leaked marker suspends the invariants of every later object at the same address)", as_rule="C03.marker-released")
+    run.do(c04.invariant_provenance, model, "C03.inherited-lists", "C03.own-lists")
+    run.do(c04.structure_rules, model)
+    run.do(fwd.forwarding, model, "C03.check-on-forwarded", ("check_on", "condition"))
     run.minimum("C03.selection", 1)
     run.minimum("C03.selection-source", 1)
     run.minimum("C03.phases", 2)
